@@ -7,7 +7,7 @@ for id in "$@"; do
   n=$id$suffix
   echo "=== $n"
   [ -f /tmp/demo-$n/patch.diff ] || { echo "no patch.diff"; continue; }
-  /verif/tools/seed_verify.sh $id $n-tmp /tmp/wt-$n /tmp/demo-$n 2>&1 | grep -E "SEED: (demo|pinned|patch|does)|^VIOLATION|-> |SEED: check exit" | cut -c1-170
+  "$(dirname "$0")"/seed_verify.sh $id $n-tmp /tmp/wt-$n /tmp/demo-$n 2>&1 | grep -E "SEED: (demo|pinned|patch|does)|^VIOLATION|-> |SEED: check exit" | cut -c1-170
   demo=""; [ -f /tmp/demo-$n/demo.sh ] && demo="bash /tmp/demo-$n/demo.sh"; [ -f /tmp/demo-$n/demo.py ] && demo="python3 /tmp/demo-$n/demo.py"
   if [ -n "$demo" ]; then
     ( cd /tmp/wt-$n && git checkout -q -- . && git apply /tmp/demo-$n/patch.diff && $demo /tmp/wt-$n >/dev/null 2>&1; a=$?; git apply -R /tmp/demo-$n/patch.diff; $demo /tmp/wt-$n >/dev/null 2>&1; b=$?; git apply /tmp/demo-$n/patch.diff; echo "script demo: with rc=$a without rc=$b" )
